@@ -319,8 +319,11 @@ func runConfigProgram(e *Env, idx int, rng *rand.Rand, coll [][2]string) {
 	qs := &h.QSpec{}
 	// address pool for this program
 	var pool []string
-	aliases := 0
-	defer func() { R.Count("alias_spellings_in_address_pools", int64(aliases)) }()
+	aliases, zoned := 0, 0
+	defer func() {
+		R.Count("alias_spellings_in_address_pools", int64(aliases))
+		R.Count("address_pools_with_scoped_ipv6_addresses", int64(zoned))
+	}()
 	for i := 0; i < 6+rng.Intn(8); i++ {
 		pool = append(pool, fmt.Sprintf("127.0.0.%d:%d", 1+rng.Intn(3), 9000+rng.Intn(40)))
 	}
@@ -328,11 +331,20 @@ func runConfigProgram(e *Env, idx int, rng *rand.Rand, coll [][2]string) {
 		p := coll[rng.Intn(len(coll))]
 		pool = append(pool, p[0], p[1])
 	}
+	if rng.Intn(4) == 0 {
+		// scoped IPv6 addresses: the zone is part of the address
+		port := 9000 + rng.Intn(40)
+		pool = append(pool, fmt.Sprintf("[fe80::1%%eth0]:%d", port), fmt.Sprintf("[fe80::1%%eth1]:%d", port), fmt.Sprintf("[fe80::2%%eth0]:%d", port))
+		zoned++
+	}
 	if rng.Intn(3) == 0 {
 		// other spellings of pool addresses (resolved without any name service): the same address, hence the same node
 		plain := len(pool)
 		for k := 0; k < 2; k++ {
 			a := pool[rng.Intn(plain)]
+			if strings.HasPrefix(a, "[") {
+				continue // (IPv6 literals are left as they are)
+			}
 			host, port, _ := net.SplitHostPort(a)
 			if rng.Intn(2) == 0 {
 				pool = append(pool, host+":0"+port)
@@ -582,6 +594,9 @@ func runConfigProgram(e *Env, idx int, rng *rand.Rand, coll [][2]string) {
 			}
 		case 2: // WithNodeIDs
 			k := 1 + rng.Intn(4)
+			if rng.Intn(4) == 0 {
+				k = 5 + rng.Intn(8) // long lists: ids repeat three times and more
+			}
 			var ids []uint32
 			all := sortedIDs(func() map[uint32]bool {
 				x := map[uint32]bool{}
